@@ -148,6 +148,10 @@ def rule_pass(ctx):
     fn = find_fn(SA, "find_signal_assignments")
     if fn is None:
         return ctx.missing(R, "find_signal_assignments")
+    import alpha
+    from pathcond import enumerate_paths
+
+    fn, _miss = alpha.canon(fn, [("assignment", "forvar", "__u.get_assignments()")])
     rets = [r for r in walk(fn["body"]) if r["k"] == "Return"]
     ok = len(rets) == 1 and [fact_str(c).replace(" ", "") for c in (conditions_to(fn["body"], rets[0]) or [])] == ["(letFunction|CustomTemplate=cfg.definition_type())"]
     ctx.check(R, "find_signal_assignments/only-functions-and-custom-templates-skipped", ok, "early returns: %s" % [facts_str(conditions_to(fn["body"], r) or []) for r in rets], site(SA, fn))
@@ -163,9 +167,9 @@ def rule_pass(ctx):
         ctx.bad(R, "find_signal_assignments/report-loop", "expected one loop over the recorded assignments", site(SA, fn))
     else:
         paths_pushes = list(method_calls(rl[0]["body"], "push"))
-        ifs = [i for i in walk(rl[0]["body"]) if i["k"] == "If"]
-        ok = len(paths_pushes) == 2 and len(ifs) == 1 and ifs[0]["else"] is not None and len(list(method_calls(ifs[0]["then"], "push"))) == 1 and len(list(method_calls(ifs[0]["else"], "push"))) == 1
-        ctx.check(R, "find_signal_assignments/one-report-per-record", ok, "exactly one push on each side of the quadratic test; pushes: %d" % len(paths_pushes), site(SA, rl[0]))
+        per_path = [sum(1 for a_ in atoms for x in walk(a_) if x["k"] == "MethodCall" and x["method"] == "push") for _c, atoms, _e in enumerate_paths(rl[0]["body"])]
+        ok = len(paths_pushes) >= 2 and bool(per_path) and all(n_ == 1 for n_ in per_path)
+        ctx.check(R, "find_signal_assignments/one-report-per-record", ok, "exactly one push on every way through the report loop; pushes per path: %s" % per_path, site(SA, rl[0]))
         ex = [x for x in walk(rl[0]["body"]) if x["k"] in ("Continue", "Break", "Return")]
         ctx.check(R, "find_signal_assignments/no-record-skipped", not ex, "%d early exits in the report loop" % len(ex), site(SA, rl[0]))
         for p in paths_pushes:
@@ -199,7 +203,17 @@ def rule_pass(ctx):
         ok = len(cs) == 2 and cs[0].startswith("matchstmt=>Substitution{") and cs[1] == "matchop=>AssignOp::AssignSignal"
         ctx.check(R, "visit_statement/every-AssignSignal-recorded", ok, "recorded under %s" % cs, site(SA, adds[0]))
         a = [render(strip(x)).replace(" ", "") for x in adds[0]["args"]]
-        ctx.check(R, "visit_statement/record-carries-statement-meta-and-access", a[:3] == ["var", "access", "meta"], str(a), site(SA, adds[0]))
+        import terms as _terms
+        from pathcond import let_env as _le
+
+        acc = strip(adds[0]["args"][1]) if len(adds[0]["args"]) > 1 else None
+        lenv_ = _le(vs["body"], adds[0])
+        if acc is not None and acc["k"] == "Path" and acc["path"] in lenv_:
+            acc = lenv_[acc["path"]]
+        acc_leaves = sorted({_terms.norm(x).replace(" ", "") for x in _terms.leaves(acc, {})}) if acc is not None else []
+        # the access of the assigned element: the Update node's access, or none for a plain assignment
+        ok_acc = acc_leaves == ["Vec::new()", "rhe.access"]
+        ctx.check(R, "visit_statement/record-carries-statement-meta-and-access", len(a) >= 3 and a[0] == "var" and a[2] == "meta" and ok_acc, "%s; access is one of %s" % (a, acc_leaves), site(SA, adds[0]))
         le = let_env(vs["body"], adds[0])
         import sgrep
         acc_name = render(strip(adds[0]["args"][1]))
